@@ -104,10 +104,13 @@ func drawC07(rt *rapid.T, tier string) C07Scenario {
 		sc.MinBucket = rapid.SampledFrom([]int{1, 2, 3, 7, 40}).Draw(rt, "min_bucket")
 		sc.MaxBuckets = rapid.SampledFrom([]int{2, 3, 4, 5, 16}).Draw(rt, "max_buckets")
 	}
-	if sc.Target != "cdb" && sc.ReadErrAt < 0 && !sc.BadLine && rapid.IntRange(0, 7).Draw(rt, "rocksdb_err") == 0 {
+	if sc.Target != "cdb" && sc.ReadErrAt < 0 && !sc.BadLine && rapid.IntRange(0, 5).Draw(rt, "rocksdb_err") == 0 {
 		// a failing low-level RocksDB call inside the compilation (GetMulti / ExecuteBatch of a batch,
 		// IngestSSTFiles of the builder, ...)
 		sc.FailCall = rapid.SampledFrom([]int{0, 0, 1, 2, 3, 5, 8}).Draw(rt, "fail_call")
+		if sc.Builder {
+			sc.FailCall = 0 // the bulk loader makes one fallible call: the ingestion of its SST files
+		}
 	}
 	sc.Tape = rapid.SliceOfN(rapid.Uint8(), 0, 64).Draw(rt, "tape")
 	return sc
